@@ -73,6 +73,8 @@ type hsOpts struct {
 	ClientCtx, ServerCtx     context.Context
 	ClientStall, ServerStall int
 	Stalled                  chan struct{} // closed when the stall point is entered
+	// > 0: that endpoint's reads return at most this many bytes per call (trickling link)
+	ClientReadChunk, ServerReadChunk int
 	Watchdog                 time.Duration
 }
 
@@ -121,6 +123,7 @@ func hsRun(o hsOpts) *hsResult {
 	ce.Hook = mkHook(&r.C2S, &r.C2SW, o.HookC2S)
 	se.Hook = mkHook(&r.S2C, &r.S2CW, o.HookS2C)
 	r.C.End, r.S.End = ce, se
+	ce.ReadChunk, se.ReadChunk = o.ClientReadChunk, o.ServerReadChunk
 	for _, x := range []struct {
 		e *netsim.End
 		k int
